@@ -77,13 +77,23 @@ def run_property(pid, mod, tier, replay):
     pre = getattr(mod, "pre_build", None)
     if pre:                       # K4 translators regenerate Lean tables from /repo's source here
         pre(ctx)
-    ok, log = common.lean_build()
+    else:                         # every run leaves the generated tables in step with /repo's current source
+        import extract
+        extract.regenerate(common.REPO)
     theorems = list(getattr(mod, "THEOREMS", []))
     imports = list(getattr(mod, "IMPORTS", []))
+    # the executable model (driver) and the modules holding this property's theorems are built separately: an obligation
+    # of another property that no longer checks is that property's business
+    ok_driver, log = common.lean_build(("fpdriver",))
+    ok = ok_driver
+    if ok_driver and imports:
+        ok, log = common.lean_build(tuple("+" + m for m in imports))
     discharged = 0
     audit_detail = {}
     if not ok:
-        ctx.broken_obligations.append({"kind": "lake build failed", "log_tail": log[-3000:]})
+        ctx.broken_obligations.append({"kind": "lake build failed", "log_tail": log[-3000:],
+                                       "what": "the executable model (fpdriver)" if not ok_driver else
+                                               "the modules of this property's theorems: " + ", ".join(imports)})
     else:
         hits = common.hygiene()
         if hits:
@@ -103,12 +113,13 @@ def run_property(pid, mod, tier, replay):
     rep.cov["theorems"] = audit_detail
     # ---------------------------------------------------------------- correspondence + oracles
     ctx.fp = common.import_flowpaths()
-    if ok:
+    if ok_driver:
         ctx.driver = common.Driver()
     try:
         if replay:
             mod.replay(ctx, json.load(open(replay)))
-        elif ok:
+        elif ok_driver:
+            # (also when a proof obligation broke: the ties and oracles are the first place to look for a failing input)
             # listed findings are replayed first from their stored minimal inputs: a finding that no longer
             # fails simply produces no KNOWN-FINDING line
             fc = getattr(mod, "finding_case", None)
@@ -121,7 +132,12 @@ def run_property(pid, mod, tier, replay):
         if (ctx.disagreements or ctx.broken_obligations) and not ctx.violations:
             search = getattr(mod, "search", None)
             if search:
-                search(ctx)
+                try:
+                    search(ctx)
+                except AttributeError as e:
+                    if ctx.driver is not None or "NoneType" not in str(e):
+                        raise
+                    print(f"[{pid}] failing-input search stopped: the executable model did not build")
     finally:
         if ctx.driver:
             ctx.driver.close()
